@@ -198,7 +198,18 @@ func Owns(i int) bool {
 }
 
 // Deadline returns the wall-clock budget for this worker (from VERIF_BUDGET_S), or zero.
+var (
+	deadlineOnce sync.Once
+	deadlineVal  time.Time
+)
+
+// Deadline is fixed at its first call: all explorations of one worker process share one budget.
 func Deadline() time.Time {
+	deadlineOnce.Do(func() { deadlineVal = deadline() })
+	return deadlineVal
+}
+
+func deadline() time.Time {
 	if s := os.Getenv("VERIF_BUDGET_S"); s != "" {
 		if f, err := strconv.ParseFloat(s, 64); err == nil && f > 0 {
 			var tv syscall.Timeval
